@@ -503,6 +503,10 @@ E2E_ATTR = {
     "g_4_2_t13_min0": ("gmin0::g_4_2_t13_min0", 4, 2, [1, 3]),
     "g_3_2_t12_max0": ("gmax0::g_3_2_t12_max0", 3, 2, [1, 2], "mx=0"),
     "g_3_2_t12_max100": ("gmax0::g_3_2_t12_max100", 3, 2, [1, 2]),
+    # a zero ceiling written as 0.0 / Duration::ZERO, at the bench and inherited from the group
+    "a_5_3_t12_max0f": ("a_5_3_t12_max0f", 5, 3, [1, 2], "mx=0"),
+    "a_2_2_t13_max0d": ("a_2_2_t13_max0d", 2, 2, [1, 3], "mx=0"),
+    "g_3_2_t12_max0f": ("gmax0f::g_3_2_t12_max0f", 3, 2, [1, 2], "mx=0"),
     # groups with a display name / on a raw-identifier module / nested: their options must reach the benchmarks
     "rg_3_2_t12": ("renamed::rg_3_2_t12", 3, 2, [1, 2]),
     "rgi_3_2_t23": ("renamed::inner::rgi_3_2_t23", 3, 2, [2, 3]),
@@ -827,6 +831,20 @@ def skip_ext_cases(rng, count):
         for cskip in ("bare", "true", "false", "env-true", "env-false"):
             cases.append(case(bench, a, None, "mf", "0.000001", tvia=("env" if cskip.startswith("env") else "cli"), cskip=cskip))
         cases.append(case(bench, a, 1 - a, "sf", "0.000001", tvia="builder", cskip=("false" if a == 0 else "bare")))
+    # sequences of builder calls: each call sets its own field, the last call per field counts
+    seq = [("min_time=0.0000005;max_time=0.0000002;max_time=0.00001", "0.0000005", "0.00001"),
+           ("max_time=0.000001;min_time=0.0000005", "0.0000005", "0.000001"),
+           ("min_time=0.0000009;min_time=0.0000003", "0.0000003", "-"),
+           ("min_time=0.0000005;max_time=0.0000002", "0.0000005", "0.0000002"),
+           ("max_time=0.0000002;max_time=0.000002;min_time=0.0000007;max_time=0.0000009", "0.0000007", "0.0000009"),
+           ("min_time=0.000001;max_time=0.0000001;max_time=0.000003;skip_ext_time=true", "0.000001", "0.000003")]
+    for calls, mn, mx in seq:
+        toks = [f"bench=vext_plain via=cli mode=b n=1 s=1 threads=1 mins={mn}"]
+        if mx != "-":
+            toks.append(f"maxs={mx}")
+        eff = 1 if "skip_ext_time=true" in calls else 0
+        toks.append(f"tvia=seq bseq={calls} eskip={eff} vcost=100000 vgen=50000 evlog=1")
+        cases.append(" ".join(toks))
     # skip_ext_time as the ONLY option given at run time (builder / flag / environment); the ceiling is in the
     # benchmark's attribute or its group's
     for bench in ("vattr_max", "vgrp_max"):
